@@ -34,6 +34,10 @@ pub struct StallScript {
     pub sub_stream_window: u32,
     pub msg_size: usize,
     pub stall_wait_ms: u64,
+    /// additionally probe topic B from a connection that itself has registrations waiting in the
+    /// stalled topic's queue
+    #[serde(default)]
+    pub probe_from_queued_conn: bool,
 }
 
 pub fn gen_script(rng: &mut Rng) -> StallScript {
@@ -50,6 +54,7 @@ pub fn gen_script(rng: &mut Rng) -> StallScript {
         sub_stream_window: *rng.pick(&[2_048u32, 4_096, 16_384]),
         msg_size: *rng.pick(&[1_024usize, 4_096, 16_000]),
         stall_wait_ms: *rng.pick(&[2_000u64, 4_000]),
+        probe_from_queued_conn: rng.chance(1, 2),
     }
 }
 
@@ -61,6 +66,8 @@ pub struct StallReport {
     pub regs_answered_ok: usize,
     pub probe_ok: bool,
     pub probe_ms: u64,
+    /// Some(result) if the queued-connection probe ran
+    pub queued_conn_probe_ok: Option<bool>,
     pub notes: Vec<String>,
 }
 
@@ -165,6 +172,33 @@ async fn scenario(world: Rc<World>, sc: StallScript) -> AResult<StallReport> {
         Err(_) => rep.notes.push("probe timed out after 10 virtual seconds".into()),
     }
     rep.probe_ms = virtual_ms() - t0;
+    if sc.probe_from_queued_conn && rep.regs_sent > 0 {
+        // the same question asked by a peer that is itself waiting to join the stalled topic
+        let conn = reg_conns[0].1.clone();
+        let topic_b = TopicName::try_from("/other/topicq").map_err(|e| anyhow!("{e}"))?;
+        let r = tokio::time::timeout(Duration::from_secs(10), async {
+            let mut s = raw_open(&conn, Frame::RegisterSubscriber(SubscriberPayload { topic: topic_b.clone(), retention_policy: 0, operations: vec![] })).await?;
+            match s.next().await {
+                Some(Ok(Frame::Ok)) => {}
+                other => return Err(anyhow!("registration on topic B answered {:?}", other.map(|r| r.map_err(|e| e.to_string())))),
+            }
+            let mut p = raw_open(&conn, Frame::RegisterPublisher(PublisherPayload { topic: topic_b.clone(), retention_policy: 0, operations: vec![] })).await?;
+            let _ = p.next().await;
+            tokio::time::sleep(Duration::from_millis(300)).await;
+            p.send(Frame::Message(selium_protocol::MessagePayload { headers: None, message: "probe".into() })).await.map_err(|e| anyhow!("{e}"))?;
+            match s.next().await {
+                Some(Ok(Frame::Message(m))) if &m.message[..] == b"probe" => Ok(true),
+                other => Err(anyhow!("no delivery on topic B: {:?}", other.map(|r| r.map_err(|e| e.to_string())))),
+            }
+        })
+        .await;
+        rep.queued_conn_probe_ok = Some(matches!(r, Ok(Ok(true))));
+        if let Ok(Err(e)) = &r {
+            rep.notes.push(format!("queued-connection probe: {e:#}"));
+        } else if r.is_err() {
+            rep.notes.push("queued-connection probe timed out after 10 virtual seconds".into());
+        }
+    }
     pub_task.abort();
     drop(stalled);
     Ok(rep)
@@ -211,6 +245,18 @@ pub fn execute(prop: &str, sc: &StallScript, opts: &ExecOpts) -> Outcome {
                             bucket,
                             format!("topic A stalled (publisher blocked after {} messages), {} registrations queued on it ({} answered Ok): a pub/sub round trip on topic B did not complete within 10 virtual seconds ({:?})", rep.published_before_block, rep.regs_sent, rep.regs_answered_ok, rep.notes),
                         );
+                    }
+                    if rep.publisher_blocked && rep.queued_conn_probe_ok == Some(false) {
+                        let bucket = if rep.regs_sent >= 102 { "queued-connection:queue-overfull" } else { "queued-connection:queue-not-full" };
+                        out.violate(
+                            prop,
+                            "other-topic-blocked",
+                            bucket,
+                            format!("topic A stalled with {} registrations queued on it: a peer whose own registrations wait in that queue could not register and exchange a message on topic B within 10 virtual seconds ({:?})", rep.regs_sent, rep.notes),
+                        );
+                    }
+                    if rep.queued_conn_probe_ok == Some(true) {
+                        out.probe("probe_from_queued_connection_ok");
                     }
                     if rep.probe_ok {
                         out.probe("probe_round_trip_ok");
